@@ -3,7 +3,7 @@ CONSTANTS
   MaxAddr = 140
   BitCounts = {1, 2, 7, 8, 9, 12, 15, 16, 17, 31, 32, 33, 63, 64, 65, 127, 500, 1500, 2000}
   RegCounts = {1, 2, 3, 16, 17, 31, 33, 63, 64, 65, 90, 95, 96, 97, 98, 125}
-  AddrsS = {0, 1, 7, 8, 15, 16, 17, 100, 139, 140, 141, 2000, 65535}
+  AddrsS = {0, 1, 7, 8, 15, 16, 17, 100, 139, 140, 141, 2000, 65535, 65534, 65520}
   WordVals = {0, 1, 255, 256, 32767, 32768, 65535, 4660}
   Depth = 12
   Tampers = {"none", "req-integrity", "req-truncate", "resp-integrity", "resp-truncate", "unit", "resp-late"}
